@@ -352,10 +352,27 @@ def _fp_check(ctx, which, helper, desc, F, L, x0, atol, rtol, max_iter):
     tr = Trace(F)
     x0_in = x0.copy()
     raised = None
+    # calling convention of the map: pure, or updating its argument in place the way the map inside
+    # DualStormerVerlet._step does (views of the argument are advanced with += and a new array / the same array is returned);
+    # the trace always records the mathematical pair (x, F(x))
+    conv = desc.get("convention", "pure")
+    if conv == "pure":
+        fun = tr
+    elif conv == "inplace_returns_same_array":
+        def fun(x):
+            y = tr(np.array(x, dtype=float))
+            x[...] = y
+            return x
+    else:
+        def fun(x):
+            y = tr(np.array(x, dtype=float))
+            x[...] = y
+            return np.array(y)
+    ctx.cls(f"{which}:map_convention={conv}")
     with warnings.catch_warnings(record=True):
         warnings.simplefilter("always")
         try:
-            out = helper(tr, x0_in, atol=atol, rtol=rtol, max_iter=max_iter)
+            out = helper(fun, x0_in, atol=atol, rtol=rtol, max_iter=max_iter)
         except Exception as e:
             raised = e
     ctx.cls(f"{which}:family={desc['family']}")
@@ -610,6 +627,7 @@ def _run(spec, ctx):
         helper = fixed_point_iteration if kind == "fpi" else fixed_point_iteration_with_momentum
         for _ in range(spec["batch"]):
             desc, F, L, x0 = _fp_problem(rng, momentum=(kind == "fpm"))
+            desc["convention"] = ["pure", "pure", "inplace_returns_same_array", "inplace_returns_new_array"][int(rng.integers(4))]
             atol, rtol = _tol(rng), _tol(rng)
             if rng.random() < 0.3:
                 rtol = 1e-12  # absolute-dominated: uniform scale
